@@ -119,20 +119,21 @@ theorem Valid.ok {ds : Dataset} {coords : List String} (h : Valid ds coords) :
   obtain ⟨cv, d, hg⟩ := h.good c hc
   exact ⟨cv, d, hg.ok⟩
 
-/-- with unique names, `find` by the name of a member returns that member -/
-theorem find_of_mem (ds : Dataset) (hn : (ds.vars.map (·.name)).Nodup) (v : Var) (hv : v ∈ ds.vars) :
-    ds.find v.name = some v := by
-  unfold Dataset.find
-  induction ds.vars with
-  | nil => simp at hv
-  | cons x xs ih =>
+theorem find?_of_mem_nodup : ∀ (l : List Var), (l.map (·.name)).Nodup → ∀ v ∈ l,
+    l.find? (fun w => w.name == v.name) = some v
+  | [], _, v, hv => by simp at hv
+  | x :: xs, hn, v, hv => by
     simp only [List.map_cons, List.nodup_cons] at hn
     rcases List.mem_cons.mp hv with rfl | hm
-    · simp [List.find?]
-    · have hne : x.name ≠ v.name := fun e => hn.1 (e ▸ List.mem_map_of_mem hm)
+    · simp
+    · have hne : x.name ≠ v.name := fun e => hn.1 (e ▸ List.mem_map_of_mem (f := (·.name)) hm)
       have : (x.name == v.name) = false := by simp [hne]
-      simp only [List.find?, this]
-      exact ih hn.2 hm
+      rw [List.find?_cons, this]
+      exact find?_of_mem_nodup xs hn.2 v hm
+
+/-- with unique names, `find` by the name of a member returns that member -/
+theorem find_of_mem (ds : Dataset) (hn : (ds.vars.map (·.name)).Nodup) (v : Var) (hv : v ∈ ds.vars) :
+    ds.find v.name = some v := find?_of_mem_nodup ds.vars hn v hv
 
 /-! ### what the plan of a coordinate does to that coordinate -/
 
